@@ -6,7 +6,7 @@ import tvlib, harness_acd, harness_solvers
 import solverlib as sl
 
 GEN_SOURCES = ["skglm/solvers/gram_cd.py"]
-EXTRA_TARGETS = ["Skel/MockACD.vo", "Skel/CorrSolvers.vo", "Skel/GramCDProofs.vo", "Skel/GroupBCDProofs.vo", "Skel/ProxNewtonProofs.vo", "Skel/FistaProofs.vo", "Skel/GramCDAnderson.vo", "Skel/MultiTaskBCDProofs.vo"]
+EXTRA_TARGETS = ["Skel/MockACD.vo", "Skel/CorrSolvers.vo", "Skel/GramCDProofs.vo", "Skel/GroupBCDProofs.vo", "Skel/ProxNewtonProofs.vo", "Skel/FistaProofs.vo", "Skel/GramCDAnderson.vo", "Skel/MultiTaskBCDProofs.vo", "Skel/GroupProxNewton.vo"]
 TRUSTED_BASE = [
     "Coq 8.16.1 kernel (coqc); vm_compute only in correspondence files",
     "no axioms (theorems over an abstract Num type and lists)",
